@@ -74,13 +74,35 @@ TailRow(o1, o2, leaf) ==
   [k |-> "flow", shape |-> "tail", ks |-> <<o1, o2>>, prog |-> prog, fns |-> Host,
    runs |-> RunSeq(prog, Objs(TailFields(o1, 1) \o TailFields(o2, 2)), 1, <<>>), done |-> TRUE]
 
-Init == \/ \E sh \in {"nest2", "seq2", "nest3", "nestseq"}, k1 \in 1..NKinds :
+\* ---- the value of a switch is ONE value -------------------------------------------------------------
+\* nx() is a host function which returns 1, 2, 3 ... on successive calls of a run: a switch over it has the
+\* value of its first call, whatever the cases are; later calls see the count go on from there
+HostNx == <<<<"t", <<"log">>>>, <<"nx", <<"count">>>>>>
+Nx == CallE("nx", <<>>)
+SwitchValProg(v) ==
+  CASE v = 1 -> <<Switch(Nx, <<Case(<<LitI(5)>>, <<T(1)>>), Case(<<LitI(2)>>, <<T(2)>>), Case(<<LitI(3)>>, <<T(3)>>), Default(<<T(9)>>)>>), Ret(Nx)>>
+    [] v = 2 -> <<Switch(Nx, <<Case(<<LitI(7), LitI(8), LitI(1)>>, <<T(1)>>), Default(<<T(9)>>)>>), Ret(Nx)>>
+    [] v = 3 -> <<ForEach("", "x", ArrLit(<<1, 2>>), <<Switch(Nx, <<Case(<<LitI(3)>>, <<T(3)>>), Case(<<LitI(2)>>, <<T(2)>>), Case(<<LitI(1)>>, <<T(1)>>)>>)>>), Ret(Nx)>>
+    [] v = 4 -> <<Switch(Nx, <<Case(<<LitI(1)>>, <<T(1)>>), Case(<<LitI(2)>>, <<T(2)>>)>>), Switch(Nx, <<Case(<<LitI(1)>>, <<T(11)>>), Case(<<LitI(3)>>, <<T(13)>>), Case(<<LitI(2)>>, <<T(12)>>)>>), Ret(Nx)>>
+    [] v = 5 -> <<Switch(BinE("+", Nx, LitI(1)), <<Case(<<LitI(9)>>, <<T(9)>>), Case(<<LitI(3)>>, <<T(3)>>), Default(<<T(0)>>)>>), Ret(Nx)>>
+SwitchValRow(v) ==
+  LET prog == SwitchValProg(v)
+      r1 == RunProgram(prog, <<>>, <<>>, HostNx, Fuel)
+      r2 == RunProgram(prog, r1.g, <<>>, HostNx, Fuel) IN
+  [k |-> "flow", shape |-> "switchval", ks |-> <<v>>, prog |-> prog, fns |-> HostNx,
+   runs |-> <<[obj |-> <<>>, exp |-> [out |-> r1.out, calls |-> r1.calls, vars |-> r1.g]],
+              [obj |-> <<>>, exp |-> [out |-> r2.out, calls |-> r2.calls, vars |-> r2.g]]>>, done |-> TRUE]
+
+Init == \/ row = [k |-> "sv0", shape |-> "switchval", done |-> FALSE]
+        \/ \E sh \in {"nest2", "seq2", "nest3", "nestseq"}, k1 \in 1..NKinds :
              row = [k |-> "flow0", shape |-> sh, k1 |-> k1, done |-> FALSE]
         \/ \E o1 \in 1..NTail : row = [k |-> "tail0", shape |-> "tail", o1 |-> o1, done |-> FALSE]
 
 Next ==
   /\ ~row.done
-  /\ \/ /\ row.shape = "tail"
+  /\ \/ /\ row.shape = "switchval"
+        /\ \E v \in 1..5 : row' = SwitchValRow(v)
+     \/ /\ row.shape = "tail"
         /\ \E o2 \in 1..NTail, leaf \in BOOLEAN : row' = TailRow(row.o1, o2, leaf)
      \/ /\ row.shape \in {"nest2", "seq2"}
         /\ \E k2 \in 1..NKinds : row' = Row(row.shape, <<row.k1, k2>>)
